@@ -117,3 +117,43 @@ def strip_casts(tree):
 
 def fmt_state(facts):
     return [show(c) + ' == ' + str(v) for c, v in sorted(facts, key=str)]
+
+
+def closure_env(prog, cl):
+    """capture index -> (parent function, the captured value as an expanded tree of the parent) for a closure body"""
+    m = re.match(r'^(.*)::\{(closure|coroutine)#\d+\}$', cl.qual)
+    if not m:
+        return None, {}
+    par = None
+    for cn in harness.CRATES:
+        c = prog.crate(cn)
+        par = c.fn(m.group(1))
+        if par is not None:
+            break
+    if par is None:
+        return None, {}
+    env = {}
+    for b in sorted(par.reach):
+        for s in par.blocks[b]['s']:
+            if s['k'] == 'assign' and s['rv']['k'] == 'agg' and s['rv'].get('def') == cl.qual:
+                for i, x in enumerate(s['rv'].get('xs', [])):
+                    t = par.expand(par.operand_tree(x))
+                    while isinstance(t, tuple) and t and t[0] in ('ref', 'mutref', 'addr') and len(t) >= 2:
+                        t = t[-1]
+                    env[i] = t
+    return par, env
+
+
+def resolve_upvars(cl, tree, env):
+    """replace captured variables (('var', name, 'upN') leaves) in a tree of the closure by the parent's tree for them"""
+    if not isinstance(tree, tuple) or not tree:
+        return tree
+    if tree[0] == 'var' and isinstance(tree[2], str) and tree[2].startswith('up'):
+        try:
+            i = int(tree[2][2:])
+        except ValueError:
+            return tree
+        return env.get(i, tree)
+    if tree[0] in ('int', 'str', 'item', 'fnref', 'float', 'const', 'arg', 'var', 'bytes'):
+        return tree
+    return tuple([tree[0]] + [resolve_upvars(cl, x, env) if isinstance(x, tuple) else x for x in tree[1:]])
